@@ -5,10 +5,10 @@ import "verifharness/fw"
 func init() {
 	fw.Reg(&fw.Spec{ID: "C09", Level: "fault_enumeration", Quick: C09Cells + 400, Thorough: C09Cells + 30000, CaseTimeoutS: 30, HangIsViolation: true, CrashIsViolation: true,
 		Exhaustive: true,
-		Rule: "case indices 0..774 enumerate the fault catalog completely: 53 fault kinds (non-bool condition, ! on non-bool, nil-pointer field, index out of range literal/variable/negative, division by zero (integer, unsigned, float and mixed operand kinds), missing name/key/field/method/function, ill-typed comparison/logic/arithmetic/arguments, too few/many arguments, panicking function (string, error, int and struct panic values) method and three-level method, field of a non-struct, unassignable / nil-map / out-of-range / wrong-type / nil-pointer writes, compound update of a missing target, unexported field, over-long name, break outside a loop, forRange over missing / non-iterable / nil targets, unbounded for) x the constructs they can sit in (if and else-if condition, for init/cond/step, forRange target, return expression, assignment rhs, compound assignment, call argument, argument of a method / three-level call statement, argument of a function / method / three-level call inside a conc block, conc member, nested block, statement at top level / in for / in forRange bodies). Every cell is one rule set {faulty rule - which in one case in three sets the stop tag before it faults -, three healthy rules with observers} driven through entry points: thorough = all 45 (21 engine methods, 24 pool methods), quick = 6 representatives per cell and all 45 for every 13th cell; each call is followed by a healthy selected call on the same engine/pool. The remaining cases put E1-generated ill-typed expressions or hostile injected values (nil nested pointer, empty slice, out-of-range pointer slice) into random constructs. Child processes with journals attribute a crash or hang to the open case. distinct = (fault@construct, entry point, engine|pool)",
+		Rule: "case indices 0..820 enumerate the fault catalog completely: 55 fault kinds (non-bool condition, ! on non-bool, nil-pointer field, index out of range literal/variable/negative, division by zero (integer, unsigned, float and mixed operand kinds), missing name/key/field/method/function, injected data called as a function, a three-level call on a local number, ill-typed comparison/logic/arithmetic/arguments, too few/many arguments, panicking function (string, error, int and struct panic values) method and three-level method, field of a non-struct, unassignable / nil-map / out-of-range / wrong-type / nil-pointer writes, compound update of a missing target, unexported field, over-long name, break outside a loop, forRange over missing / non-iterable / nil targets, unbounded for) x the constructs they can sit in (if and else-if condition, for init/cond/step, forRange target, return expression, assignment rhs, compound assignment, call argument, argument of a method / three-level call statement, argument of a function / method / three-level call inside a conc block, conc member, nested block, statement at top level / in for / in forRange bodies). Every cell is one rule set {faulty rule - which in one case in three sets the stop tag before it faults -, three healthy rules with observers} driven through entry points: thorough = all 45 (21 engine methods, 24 pool methods), quick = 6 representatives per cell and all 45 for every 13th cell; each call is followed by a healthy selected call on the same engine/pool. The remaining cases put E1-generated ill-typed expressions or hostile injected values (nil nested pointer, empty slice, out-of-range pointer slice) into random constructs. Child processes with journals attribute a crash or hang to the open case. distinct = (fault@construct, entry point, engine|pool)",
 		Assumptions: []string{"only nil / non-nil of the returned error is checked", "the hang bound is 30 s per case (a case normally takes < 50 ms); injected functions terminate", "the faulty rule logs fl(id) immediately before the faulty construct and en(id) after it: an en after fl means the fault did not stop the rule"},
 		MinCounters: map[string]int64{"catalog_cells": C09Cells, "events": 10000}})
 }
 
 // C09Cells is the size of the fault x construct catalog (checked against trace.NFaultCells by the worker).
-const C09Cells = 775
+const C09Cells = 821
